@@ -57,7 +57,6 @@ func checkC15(c *Ctx, r *Report) {
 		r.Floor("fresh_result_obligations", 15)
 	}
 
-
 	// sm2B must be the curve's b
 	bObj := pk.Types.Scope().Lookup("sm2B")
 	if bObj == nil {
